@@ -67,6 +67,11 @@ func c36Errors() []c36Err {
 		{Name: "os-deadline", Err: os.ErrDeadlineExceeded, HTTPWant: 504, Timeout: true},
 		{Name: "other", Err: errors.New("verif: something else broke"), HTTPWant: 502},
 		{Name: "closed-pipe", Err: io.ErrClosedPipe, HTTPWant: 502},
+		// the tunnel died in the middle of a message: NOT one of the two causes the handler
+		// documents as expected (context.Canceled, io.EOF), although it sounds like one
+		{Name: "unexpected-eof", Err: io.ErrUnexpectedEOF, HTTPWant: 502},
+		{Name: "short-write", Err: io.ErrShortWrite, HTTPWant: 502},
+		{Name: "no-progress", Err: io.ErrNoProgress, HTTPWant: 502},
 		{Name: "net-error-not-timeout", Err: notTimeoutNetErr{}, HTTPWant: 502},
 	}
 }
